@@ -821,6 +821,28 @@ func (w *World) diverge(a, b *Node, steps int) error {
 	return w.verifyAll(true)
 }
 
+// growAfterBuild keeps using a batch-built container in the same storage session: several hundred insertions at PRNG
+// positions / keys (plus a few overwrites and removals) split data slabs below every index slab the builder produced,
+// including full ones that are not the last of their level; the content is compared with the model along the way.
+func (w *World) growAfterBuild(n *Node, steps int) error {
+	grow := Phase{Name: "grow-after-build", Insert: 86, Set: 5, Remove: 4, Read: 5, Meta: 0, Pop: 0}
+	for i := 0; i < steps; i++ {
+		if err := w.Step(n, grow, &HistCfg{}); err != nil {
+			return err
+		}
+		if i%97 == 96 {
+			if err := w.CheckDeep(); err != nil {
+				return err
+			}
+		}
+	}
+	if err := w.CheckDeep(); err != nil {
+		return err
+	}
+	w.stats.Extra["batch-built-then-grown"]++
+	return w.CheckTree(true)
+}
+
 // batchBytes (final step of the C06 / C07 cases): slabs also come into being through the batch constructors. A few short
 // element streams whose tail underflows next to a sibling that cannot lend (and ordinary ones) are built into arrays and,
 // through a source map, into maps; every slab of the result goes through the byte-level monitor (reported size ==
@@ -1100,6 +1122,38 @@ func runC17(c *CaseCtx) *CaseResult {
 				}
 			}
 		}
+		// one large build (several index slabs on one level at the small slab sizes) that is then grown by individual
+		// insertions in the same storage session
+		{
+			length := 600 + r.Intn(900)
+			if slab >= 32768 {
+				length *= 3
+			}
+			stream := c17Stream(w, length, []int{3, 0, 4}[c.Case/16%3])
+			i := 0
+			ti := w.newTI(false)
+			arr, err := atree.NewArrayFromBatchData(w.st, w.addr, ti, func() (atree.Value, error) {
+				if i == len(stream) {
+					return nil, nil
+				}
+				v := scalarValue(stream[i])
+				i++
+				return v, nil
+			})
+			if err != nil {
+				return fail(viol("bulk-build", "NewArrayFromBatchData(length %d) failed: %v", length, err))
+			}
+			w.nextNID++
+			n := &Node{Kind: KArr, TI: ti, Arr: arr, VID: arr.ValueID(), Addr: w.addr, nid: w.nextNID, Elems: stream}
+			w.AddRoot(n)
+			w.logOp("batch-build array length %d, then grow", length)
+			if err := w.growAfterBuild(n, 2000); err != nil {
+				return fail(err)
+			}
+			if err := w.diverge(n, nil, 0); err != nil {
+				return fail(err)
+			}
+		}
 		// mini streams: 2-14 elements whose sizes are drawn from {tiny, 40 bytes, half limit, limit-1, limit}: the tail of
 		// such streams regularly leaves an underfull last slab next to a sibling that cannot lend (merge arm of the
 		// close-out), also at the index-slab level when prefixed with filler
@@ -1170,6 +1224,12 @@ func runC17(c *CaseCtx) *CaseResult {
 			}
 			w.AddRoot(src)
 			cnt := r.Intn(maxLen/2 + 1)
+			growAfter := b == builds-2 // an even b: default digester, so the entries spread over many data slabs
+			if growAfter {
+				// one default-digester build is large (several index slabs on one level at the small slab sizes) and is then grown by
+				// individual insertions in the same storage session
+				cnt = 500 + r.Intn(500)
+			}
 			w.prof.KeySpace = cnt*2 + 10
 			for i := 0; i < cnt; i++ {
 				if err := w.OpMapSet(src, w.genKey(src, w.prof.KeySpace), w.genScalar(th.MaxInlineMapElementSize/2)); err != nil {
@@ -1230,6 +1290,12 @@ func runC17(c *CaseCtx) *CaseResult {
 				return fail(err)
 			}
 			res.Obs["batch-maps-built"]++
+			if growAfter {
+				w.prof.KeySpace = cnt * 6
+				if err := w.growAfterBuild(cp, 2000); err != nil {
+					return fail(err)
+				}
+			}
 			// diverge: mutate the copy, the source must not change; then dispose the copy; then dispose the source
 			if err := w.diverge(cp, src, 8); err != nil {
 				return fail(err)
@@ -1684,8 +1750,9 @@ func init() {
 		ID: "C17", Level: "exploration", Run: runC17, Cases: cases(64, 320), MinNonTrivial: 8,
 		Rule: "cases cycle over slab sizes {256,512,1024,32768} x 4 modes. batch-array: NewArrayFromBatchData for PRNG lengths (0..300 quick / 0..3000 thorough, x4 at slab 32768) x 5 size profiles (uniform tiny, uniform near the inline limit, underfull tail, mixed, with externalised large values); batch-map: NewMapFromBatchData from generated source maps (default and colliding digesters): same seed, same iteration order; " +
 			"copy: matrix {array,map} x {plain, wrapped, large value, nested inlined, nested standalone, collision group, multi-slab} x {standalone, inlined source}: CanCopyNonRefSimple must equal (single slab AND all elements plain non-reference) computed from the model, an offered copy must succeed, a refused copy must return a copy error; bytes: ByteSliceToByteArray/ByteArrayToByteSlice round trips for lengths around the single-slab fast-path boundary x estimates {0,1,3,4,100}, foreign element => typed error. " +
+			"In both batch modes one large build (600-1500 elements / 500-1000 entries under the default digester: several index slabs on one level at the small slab sizes) is then GROWN in the same storage session by 2000 further operations (86 % insertions), so that data slabs split below every index slab the builder produced. " +
 			"Every result is compared with the model (API deep compare + structural walk + in-repo verifier + byte-level sizes + reachability with both values as roots), then a divergence phase mutates one side with the other re-checked after each step, then one side is disposed of and the other must survive alone. non-trivial = divergence phase ran and (copy mode or a result spanning >=3 slabs); distinct by hash(config, operation list)",
 		Assumptions: []string{"batch-built maps are fed from a read-only iteration of the source (scalar/string keys and values)", "exploration, not proof"},
-		Mandatory:   []string{"batch-arrays-built", "batch-arrays-multi-slab", "batch-mini-streams", "batch-maps-built", "batch-mini-sources", "copies-made", "copies-of-inlined-sources", "byte-conversions", "byte-conversions-multi-slab", "divergence-phases"},
+		Mandatory:   []string{"batch-arrays-built", "batch-arrays-multi-slab", "batch-mini-streams", "batch-maps-built", "batch-built-then-grown", "batch-mini-sources", "copies-made", "copies-of-inlined-sources", "byte-conversions", "byte-conversions-multi-slab", "divergence-phases"},
 	})
 }
